@@ -28,7 +28,19 @@ def main():
     ap.add_argument("--also", default="")
     ap.add_argument("--tier", default="quick")
     ap.add_argument("--write", action="store_true")
+    ap.add_argument("--worktree", default=None,
+                    help="apply the patches in this scratch git worktree of /repo (created if missing) and run the checks "
+                         "with MSMART_REPO pointing at it, instead of patching /repo itself (for use while other runs need /repo)")
     a = ap.parse_args()
+    global REPO
+    env = dict(os.environ)
+    if a.worktree:
+        if not os.path.isdir(a.worktree):
+            sh(f"git -C /repo worktree add --detach {a.worktree} HEAD -q")
+        else:
+            sh(f"git -C {a.worktree} checkout -q --detach $(git -C /repo rev-parse HEAD)")
+        REPO = a.worktree
+        env["MSMART_REPO"] = a.worktree
     rc, out = sh(f"git -C {REPO} status --porcelain")
     if out.strip():
         print("refusing: /repo is not clean:\n" + out)
@@ -49,7 +61,7 @@ def main():
                 summary.append((sid, meta["property"], "patch-does-not-apply"))
                 continue
             for p in props:
-                rc, out = sh(f"./check {p} --tier {a.tier}", cwd=VERIF, timeout=3600)
+                rc, out = sh(f"./check {p} --tier {a.tier}", cwd=VERIF, timeout=3600, env=env)
                 lines = [l for l in out.split("\n") if l.startswith("VIOLATION")]
                 tail = [l for l in out.strip().split("\n") if l.startswith(p + " ")]
                 res[p] = {"exit": rc, "violation_lines": lines[:5], "summary": tail[-1] if tail else out[-200:]}
@@ -65,7 +77,7 @@ def main():
             meta["caught_by"] = caught
             json.dump(meta, open(os.path.join(d, "meta.json"), "w"), indent=1)
     # make sure the generated files and the build are back in the clean-tree state
-    sh("/venv/bin/python harness/extract.py && cd lean && lake build msmart_driver Msmart", cwd=VERIF)
+    sh("/venv/bin/python harness/extract.py && cd lean && lake build msmart_driver Msmart", cwd=VERIF)  # back to /repo
     missed = [s for s in summary if s[2] == "MISSED"]
     print(f"{len(summary)} seeded changes, {len(summary) - len(missed)} caught, missed: {[m[0] for m in missed]}")
     return 0
